@@ -31,7 +31,7 @@ PY = "/venv/bin/python"
 def _reexec():
     want = {"PYTHONHASHSEED": os.environ.get("VERIF_HASHSEED", "0"),
             "PYTHONPATH": f"{REPO}:{VERIF}/harness", "ADCGEN_VERIF": "1",
-            "PYTHONDONTWRITEBYTECODE": "1"}
+            "PYTHONDONTWRITEBYTECODE": "1", "ADCGEN_LOG_LEVEL": "ERROR"}
     if os.environ.get("VERIF_REEXEC") == "1" and \
             os.path.realpath(sys.executable) == os.path.realpath(PY):
         return
